@@ -116,6 +116,16 @@ def sources():
     out.append(('nested-kernel', PARKIND + 'module scc_mod\ncontains\n' + DRV + nested + INNER + 'end module scc_mod\n'))
     across = KHDR.format(decls='  real :: zsurf(nlon)\n  real :: tmp(nlon, nz)', body='  c = 2.0\n  do jl = start, end\n    zsurf(jl) = q(jl, 1)*c\n  end do\n  do jk = 1, nz\n    do jl = start, end\n      tmp(jl, jk) = q(jl, jk) + c\n    end do\n  end do\n  call inner_kernel(start, end, nlon, nz, tmp, c)\n  do jk = 1, nz\n    do jl = start, end\n      t(jl, jk) = tmp(jl, jk) + zsurf(jl)\n    end do\n  end do')
     out.append(('temp-across-nested-call', PARKIND + 'module scc_mod\ncontains\n' + DRV + across + INNER + 'end module scc_mod\n'))
+    # the kernel's level count is NOT the driver's variable of the same name (the driver passes nz + 1 for the dummy nz),
+    # and the temporaries have dimensions that are expressions / ranges over that dummy: what the driver allocates
+    # must be sized in the driver's terms
+    drv2 = DRV.replace('call compute_column(start, end, nlon, nz, q(:, :, b), t(:, :, b))',
+                       'call compute_column(start, end, nlon, nz + 1, q(:, :, b), t(:, :, b))')
+    k2 = KHDR.replace('q(nlon, nz)', 'q(nlon, nz-1)').replace('t(nlon, nz)', 't(nlon, nz-1)').format(
+        decls='  real :: tmp0(nlon, 0:nz)\n  real :: wk2(nlon, 2*nz)',
+        body='  c = 2.0\n  do jk = 0, nz\n    do jl = start, end\n      tmp0(jl, jk) = c*jk\n      wk2(jl, 2*nz - jk) = jk + 1.0\n    end do\n  end do\n'
+             '  do jk = 1, nz-1\n    do jl = start, end\n      t(jl, jk) = tmp0(jl, jk+1) - tmp0(jl, jk-1) + q(jl, jk)\n      q(jl, jk) = wk2(jl, 2*nz - jk - 1) + tmp0(jl, nz)\n    end do\n  end do')
+    out.append(('temporary-dims-in-callee-terms', PARKIND + 'module scc_mod\ncontains\n' + drv2 + k2 + 'end module scc_mod\n'))
     # Fortran is case-insensitive: the same call trees in IFS-style upper-case spelling of the kernel variables
     def upcase(src):
         import re as _re
